@@ -113,6 +113,13 @@ pub struct GradualObjectCount {
     tiny_droplets: u32,
 }
 
+#[cfg(rosu_pp_verif)]
+impl GradualObjectCount {
+    pub const fn verif_parts(self) -> (bool, u32) {
+        (self.fruit, self.tiny_droplets)
+    }
+}
+
 pub enum ObjectCountBuilder {
     Regular {
         count: ObjectCount,
